@@ -114,7 +114,8 @@ func VH_C14_decode_bound() {
 }
 
 // Unmarshal allocates memory proportional to the input only
-func VH_C14_unmarshal_bound()      { vUnmarshalBound(2) }
+func VH_C14_unmarshal_bound() { vUnmarshalBound(2) }
+
 // (a full-width variant, vUnmarshalBound(1 << 32), did not finish within 50 minutes and is not registered)
 
 func vUnmarshalBound(maxSegs uint64) {
